@@ -81,6 +81,11 @@ void adapter_exec(Ev *ev)
     flav_sink_init(&sink, &fk, snk_chunk, &k, k.at ? 0 : (harness_flavour % 6) >> 1);
     RFC1055Context ctx;
     rfc1055_context_init(&ctx, sof);
+    if (harness_flavour % 4 == 1 && (sof & ~(uint32_t)RFC1055_WITH_SOF) == 0) {
+        /* set up with the public static initialisers instead of the init function */
+        RFC1055Context c0 = RFC1055_CONTEXT_INIT_DEFAULT, c1 = RFC1055_CONTEXT_INIT_WITH_SOF;
+        ctx = sof ? c1 : c0;
+    }
     if (harness_flavour >= 6 && !isrun) {
         /* a context that has been used before: one frame (containing both control octets) encoded and thrown away */
         static const unsigned char pre[3] = { 192, 219, 7 };
